@@ -4,6 +4,7 @@
 #include "spec/c_option.h"
 #include "spec/c_pdu.h"
 #include "src/coap_pdu.c"
+#include "src/coap_encode.c"
 #ifdef WITH_OPTION_C
 #include "src/coap_option.c"
 #endif
